@@ -169,6 +169,9 @@ def _reuse_programs(tier: str):
     for u1 in full:
         for u2 in full:
             yield {"reuse": [u1, u2], "cancels": 0}
+    for e1 in ("return", "raise"):
+        for e2 in ("return", "raise"):
+            yield {"reuse": [{"ending": e1}, {"ending": e2}], "cancels": 0, "two_worlds": True}
     for u1 in _REUSE_SMALL:
         for u2 in _REUSE_SMALL:
             for u3 in _REUSE_SMALL:
@@ -184,12 +187,78 @@ class _ReuseErr(Exception):
     pass
 
 
+def _reuse_two_worlds(program, ch: Chooser) -> Result:
+    """ONE Disposables object, built before any loop runs, used by a scope under a first event loop
+    and by another scope under a second one (module-level resources and two asyncio.run calls)"""
+    from haiway import Disposables, ctx
+    from hv.core import task_failure
+    from hv.vloop import Livelock
+    from hv.world import World
+
+    uses = program["reuse"]
+    viols: list[dict] = []
+    log: list = []
+    counts = {"A": [0, 0], "B": [0, 0]}  # [entered, exited] per disposable in the current use
+
+    class D:
+        def __init__(self, name):
+            self.name = name
+
+        async def __aenter__(self):
+            counts[self.name][0] += 1
+            log.append(f"{self.name}:enter")
+            return None
+
+        async def __aexit__(self, et, ev, tb):
+            counts[self.name][1] += 1
+            log.append(f"{self.name}:exit")
+
+    shared = Disposables(D("A"), D("B"))
+    for u, spec in enumerate(uses):
+        counts["A"][:] = [0, 0]
+        counts["B"][:] = [0, 0]
+        w = World(ch)
+        out: dict = {}
+        try:
+
+            async def driver(spec=spec, out=out):
+                try:
+                    async with ctx.scope("use", disposables=shared):
+                        if spec["ending"] == "raise":
+                            raise BodyErr("body")
+                    out["caught"] = None
+                except BaseException as exc:  # noqa: BLE001
+                    out["caught"] = exc
+
+            t = w.task(driver(), name=f"driver{u}")
+            try:
+                w.run()
+            except Livelock:
+                pass
+            witness = f"reuse/loop{u + 1}-of-{len(uses)}"
+            if task_failure(t) is not None:
+                viols.append(viol("termination", witness, "finishes", task_failure(t)))
+                continue
+            for name in ("A", "B"):
+                if counts[name] != [1, 1]:
+                    viols.append(viol("exit-once", f"{witness}/{name}", "entered once and exited once in this use", list(counts[name]), log=list(log)))
+            want = "BodyErr" if spec["ending"] == "raise" else None
+            got = type(out.get("caught")).__name__ if out.get("caught") is not None else None
+            if got != want:
+                viols.append(viol("cleanup-error-surfaces", f"{witness}/outcome", want, f"{got}: {out.get('caught')}"[:120]))
+        finally:
+            w.close()
+    return Result(f"reuse/two-worlds/{len(uses)}", True, viols, {"log": log[:20]}, steps=len(uses))
+
+
 def _reuse(program, ch: Chooser) -> Result:  # noqa: C901, PLR0912, PLR0915
     from haiway import Disposables, ctx
     from hv.vloop import Livelock
     from hv.world import World
 
     uses = program["reuse"]
+    if program.get("two_worlds"):
+        return _reuse_two_worlds(program, ch)
     w = World(ch, cancel_budget=program["cancels"])
     viols: list[dict] = []
     cur = [0]
